@@ -49,10 +49,13 @@ def l1_primitives():
     for v in [0, 1, -1, 2, -2, 65535, -65535, 65536, -65536, (1 << 31) - 1, -((1 << 31) - 1)]:
         rt(S.write_int_neg, S.read_int_neg, v)
     strs = ["", "a", "NA", "chr1", "x" * 255, "x" * 256, "x" * 65534, "gène", "β-cell", "細胞1", "é" * 300]
-    for v in strs + ["x" * 65535]:
+    # long strings: a modified-base tag (MM) of a long nanopore read copied with --bam_tags has tens of thousands of characters
+    longs = ["x" * 65535, "x" * 65536, "C+m," + "1," * 40000]
+    for v in strs + longs:
         rt(S.write_string, S.read_string, v)
-    for v in strs + [None]:
+    for v in strs + longs + [None]:
         rt(S.write_string_or_none, S.read_string_or_none, v)
+    rt(S.write_dict, S.read_dict, {"MM": "C+m," + "1," * 40000, "k": 1})
     for k in range(0, 9):
         for bits in itertools.product([False, True], repeat=k):
             n += 1
@@ -649,7 +652,7 @@ def run(ctx):
     })
     ctx.assumptions += [
         "penalty scores are multiples of 2^-20 and non-negative (the documented fixed-point representation)",
-        "strings are ASCII and at most 65535 (65534 for nullable ids) characters",
+        "strings of up to 80 thousand characters (a modified-base tag of a long read)",
         "reuse (L4) compares every file outside aux/ after replacing the experiment prefix OUT0 -> OUT and dropping command-line headers",
     ]
 
